@@ -8,6 +8,22 @@ TB = ("Trusted base: Coq 8.16.1 kernel + vm_compute (no native_compute); no axio
       "only (no Extract Constant) + ocaml/driver.ml; the Python correspondence/oracle harness. ")
 
 CLAIMED = {
+ "C01": dict(
+   text="Machine-checked theorem (about 1100 lines): for every ordinary tree (valid names incl. upper case, distinct "
+        "plain attributes, text and metadata leaves, any depth/fan-out/whitespace flags), every indent and every "
+        "whitespace eol, the renderer model's output is accepted by a specification HTML tokenizer (data, tag open, "
+        "end tag open, tag name, attribute name/value (double-quoted), self-closing states; character references "
+        "decoded) and a well-nestedness tree builder, and the parsed forest equals the tree's element forest up to "
+        "the canonical form of the statement (adjacent text merged, run edges trimmed): balanced nesting, own end "
+        "tags, self-closed form, attribute names in order with decoded values. The 16 void names and the validity of "
+        "all catalogue names are decided over the regenerated tables. Tied to the code by differential execution "
+        "on ordinary trees over the whole catalogue; html.parser independently rebuilds forest and tag events from "
+        "the implementation's output, and agrees with the spec tokenizer on every rendered string.",
+   note=TB + "The tokenizer/tree-builder specification (coq/Spec/Tokenizer.v) is mine, not the WHATWG text: it covers the "
+        "states the renderer can reach and fails on anything else; it is validated against html.parser on every "
+        "rendered string each run. script/style (raw text) are excluded from `ordinary` (C04's subject).",
+   tech="Coq proof (tokenizer lemmas per state with explicit fuel bounds, simulation for the tree builder, structural induction over trees) + translator tables + differential correspondence + html.parser oracle",
+   ref="6 C01"),
  "C02": dict(
    text="Machine-checked theorems (Coq) over the model of html_escape built on the escape table regenerated from "
         "/repo on every run: the sequential-replace implementation equals the per-character map of the statement "
@@ -19,6 +35,19 @@ CLAIMED = {
         "is hand-modelled and tied by correspondence only.",
    tech="Coq proof (induction over strings and tables) + translator-regenerated tables + differential correspondence",
    ref="6 C02"),
+ "C03": dict(
+   text="Machine-checked theorems: html_escape(attr=True) over the regenerated attribute table is the per-character map "
+        "of the seven metacharacters for every string; its output has no quote, angle bracket, CR or LF, every "
+        "ampersand starts one of the seven references, and decoding returns the original; the attribute writer emits "
+        "space name=\"text\"; for ANY number, order and mix of plain and HTML() values given for one name (construction "
+        "call, later update, item assignment) the text between the quotes is the single-space join of each plain "
+        "value escaped exactly once and each HTML() value verbatim; True gives an empty value, None/False omit. Tied "
+        "to the code by differential execution of attribute scenarios (dicts, keywords, update, item assignment, "
+        "add_class, add_style, all mixes) with a statement-level oracle and html.parser decoding.",
+   note=TB + "Builds on the C15 attribute model. A genuine defect found by this check (plain value merged with HTML() escaped "
+        "with the text table only) was repaired in /repo (fix: commit b4d72c6); the model follows the repaired code.",
+   tech="Coq proof (char-map theorem over regenerated table, induction over merged value lists) + differential correspondence",
+   ref="6 C03"),
  "C04": dict(
    text="Machine-checked theorems: the content pieces of any rendering are, in document order, exactly the tree's leaves "
         "with every HTML()/_repr_html_ leaf and every text directly inside script/style verbatim and every other "
@@ -87,6 +116,22 @@ CLAIMED = {
         "versions are outside the model) and checked against the library on random versions each run.",
    tech="Coq proof (loop invariant by rev_ind for an abstract order, instantiated; structural induction on trees) + differential correspondence",
    ref="6 C10"),
+ "C12": dict(
+   text="Machine-checked theorems over models of urllib.parse.quote/unquote (UTF-8, %XX), posixpath.join, "
+        "source_path_map/as_dict URL construction and copy_to on an abstract filesystem: unquote(quote(p)) = p for "
+        "every string of scalar values (all four UTF-8 lengths); quote output is safe characters and upper-case %XX "
+        "only and preserves the segment structure; URL shape for local and URL sources; the URL the writer emits, "
+        "resolved and unquoted under the file's directory, is exactly the path the copier writes (every libdir incl. "
+        "None/nested, both include_version values); after a successful copy every listed file is byte-identical, "
+        "stale target content is gone, everything outside the target directory is untouched; a missing listed file "
+        "gives an error with the filesystem unchanged; URL/None sources copy nothing. Tied to the code by differential "
+        "runs on real temporary directories (hostile file names, stale targets, each missing file) and quote/unquote "
+        "against urllib over all code points.",
+   note=TB + "PARTIAL where the truth lives in the OS: symlinks, permissions, Path.resolve(), copytree/rmtree internals are "
+        "covered only by the differential run on real directories. The code quotes file paths only, not dependency "
+        "names/versions/libdir (outside the statement's quantifier; recorded in DESIGN.md).",
+   tech="Coq proof (byte-level codecs, path algebra, finite-map filesystem characterisation) + differential correspondence on real directories",
+   ref="6 C12"),
  "C15": dict(
    text="Machine-checked theorems over the statement-level model of TagAttrDict (name/value normalisation, per-call "
         "accumulation, merge with the str/HTML + rules, dict.update), Tag.__init__ argument splitting and "
